@@ -336,17 +336,21 @@ let run_conv (id : string) (lv : sexp) (fields : sexp list) =
 
 (* ------------------------------------------------------------------ derive rules (C17) *)
 let opt_hex = function A "-" -> None | h -> Some (hx h)
+(* identifiers and names of the derive rules are sequences of characters (code points) *)
+let dchars (s : sexp) = match utf8_decode (hx s) with Some cs -> cs | None -> failwith "not UTF-8"
+let opt_dchars = function A "-" -> None | h -> Some (dchars h)
+let hex_of_chars cs = hex_of_bytes (utf8_encode cs)
 let nameanns_of (l : sexp list) : nameann list =
   List.map (function
       | L [A "s"; A "-"] -> NShort None
       | L [A "s"; A cp] -> NShort (Some (n_of_int (int_of_string cp)))
       | L [A "l"; A "-"] -> NLong None
-      | L [A "l"; h] -> NLong (Some (hx h))
+      | L [A "l"; h] -> NLong (Some (dchars h))
       | L [A "e"; h] -> NEnv (hx h)
       | _ -> failwith "bad name annotation") l
 let commas f l = if l = [] then "-" else String.concat "," (List.map f l)
 let print_names id tag (sh, lo) =
-  Printf.printf "%s\t%s\t%s\t%s\n" id tag (commas (fun c -> string_of_int (int_of_n c)) sh) (commas hex_of_bytes lo)
+  Printf.printf "%s\t%s\t%s\t%s\n" id tag (commas (fun c -> string_of_int (int_of_n c)) sh) (commas hex_of_chars lo)
 let run_dfield (id : string) (fields : sexp list) =
   match fields with
   | [ident; A shape; L (A "names" :: names); cons; A fb; help] ->
@@ -358,7 +362,7 @@ let run_dfield (id : string) (fields : sexp list) =
       | L [A "argument"; mv] -> Some (CAArgument (opt_hex mv))
       | L [A "positional"; mv] -> Some (CAPositional (opt_hex mv))
       | _ -> failwith "bad consumer annotation" in
-    let fd = { fd_ident = opt_hex ident; fd_shape = sh; fd_names = nameanns_of names; fd_cons = ca;
+    let fd = { fd_ident = opt_dchars ident; fd_shape = sh; fd_names = nameanns_of names; fd_cons = ca;
                fd_fallback = (fb = "1"); fd_help = opt_hex help } in
     (match derive_field fd with
      | None -> Printf.printf "%s\tPLAN\tERROR\n" id
@@ -368,7 +372,7 @@ let run_dfield (id : string) (fields : sexp list) =
          | KArgumentK mv -> "argument:" ^ hex_of_bytes mv
          | KPositionalK mv -> "positional:" ^ hex_of_bytes mv in
        Printf.printf "%s\tPLAN\t%s\t%s\t%s\t%s\t%s\t%s\n" id
-         (commas (fun c -> string_of_int (int_of_n c)) p.pl_short) (commas hex_of_bytes p.pl_long)
+         (commas (fun c -> string_of_int (int_of_n c)) p.pl_short) (commas hex_of_chars p.pl_long)
          (commas hex_of_bytes p.pl_env) cons
          (commas (function PoOptional -> "optional" | PoMany -> "many" | PoFallback -> "fallback") p.pl_post)
          (match p.pl_help with Some h -> hex_of_bytes h | None -> "-"))
@@ -531,9 +535,9 @@ let run_case (line : string) =
     (try run_dfield id fields with Failure m -> Printf.printf "%s\tBADCASE\t%s\n" id m)
   | L [A "grouphelp"; A id; d; e] ->
     Printf.printf "%s\tGROUPHELP\t%s\n" id (match group_help_of (opt_hex d) (opt_hex e) with Some h -> hex_of_bytes h | None -> "-")
-  | L [A "kebab"; A id; h] -> Printf.printf "%s\tKEBAB\t%s\n" id (hex_of_bytes (to_kebab_case (hx h)))
+  | L [A "kebab"; A id; h] -> Printf.printf "%s\tKEBAB\t%s\n" id (hex_of_chars (to_kebab_case (dchars h)))
   | L [A "unitnames"; A id; h; L (A "names" :: names)] ->
-    (match unit_variant_names (hx h) (nameanns_of names) with
+    (match unit_variant_names (dchars h) (nameanns_of names) with
      | Some r -> print_names id "UNITNAMES" r
      | None -> Printf.printf "%s\tUNITNAMES\tERROR\n" id)
   | L (A "conv" :: A id :: lv :: fields) ->
